@@ -1,7 +1,8 @@
 #!/bin/bash
 # usage: try_seed.sh <patch.diff> <PROP> [extra check flags]  -- applies a seeded change to /repo, runs the check, reverts
 P=$1; PROP=$2; shift 2
+[ -z "$(git -C /repo status --porcelain)" ] || { echo "/repo has uncommitted changes: refusing"; exit 8; }
 cd /repo && git apply "$P" || { echo "patch does not apply"; exit 9; }
 cd /verif && ./bin/check $PROP --no-native "$@" 2>&1 | grep -v conda | grep -E "VIOLATION|INCONCLUSIVE|^property|harness=" | grep -v "^KNOWN" | head -20
-git -C /repo checkout -- .
+git -C /repo checkout -- . && git -C /repo clean -fdq
 git -C /repo status --short | head -3
